@@ -17,6 +17,7 @@ idle timeout") is NOT a theorem: it needs timers and goroutines. `no_byte_forgot
 -/
 import Uquic.Proofs.SendCompose
 import Uquic.Proofs.SendDgram
+import Uquic.Proofs.SendRefReasm
 
 namespace Uquic.Props.C01
 open Uquic.Model.Stream.Send Uquic.Spec.SendRun Uquic.Spec.StreamPipe Uquic.Proofs.Send
@@ -181,7 +182,20 @@ theorem read_complete_partial (A : Reassembler) (C : ReassemblyContract A) (sid 
   · obtain ⟨x, hx, hxf⟩ := hfin
     obtain ⟨f, hf, rfl⟩ := h.segs_emitted x hx
     have := (h.inv.emitted_faith f hf).2 hxf
-    exact C.eof_complete p.r n p.s.written h.reach h.consistent hn ⟨segOf f, hx, hxf, by rw [hall]; exact this.2⟩
+    exact C.eof_complete p.r n p.s.written h.reach h.consistent hn (by rw [hall]) ⟨segOf f, hx, hxf, by rw [hall]; exact this.2⟩
+
+/-- The contract is satisfiable (non-vacuity of the two theorems above): a naive reference reassembler
+    that keeps every segment and reads byte by byte meets it. The real receive side (frame_sorter.go,
+    receive_stream.go) is property C03, whose theorem is to discharge `ReassemblyContract`. -/
+theorem reassembly_contract_satisfiable : ∃ A : Reassembler, ReassemblyContract A :=
+  ⟨Uquic.Proofs.RefReasm.ref, Uquic.Proofs.RefReasm.ref_contract⟩
+
+-- and with it a concrete end-to-end run: write, pop in two pieces, deliver them out of order (one twice), read
+example :
+    let p := pipeRun (pipeInit Uquic.Proofs.RefReasm.ref 0 false)
+      [.snd (.write [1, 2, 3, 4, 5, 6, 7, 8, 9, 10, 11, 12]), .snd .close, .snd (.pop 10 1000 false), .snd (.pop 100 1000 false),
+       .deliver 1, .read 4, .deliver 0, .deliver 1, .read 100]
+    Uquic.Proofs.RefReasm.ref.out p.r = [1, 2, 3, 4, 5, 6, 7, 8, 9, 10, 11, 12] ∧ p.eofSeen = true := by decide
 
 /-! ## 5. application datagrams -/
 
